@@ -8,6 +8,7 @@ THEOREMS = [
     "XmlDiffModel.C12_valid",
     "XmlDiffModel.C12_increasing",
     "XmlDiffModel.C12_total",
+    "XmlDiffModel.C12_maximum",
 ]
 PARTIAL = {}
 LEAN_MODULES = ["XmlDiffModel.Props.C12"]
